@@ -146,6 +146,73 @@ def adaptor_form(ctx, b, r, where):
     return True
 
 
+def bytes_form(ctx, b, r, where):
+    """The replacement written byte by byte: `output.extend(region.bytes().map(|b| if b == b'\\n' { '\\n' } else { ' ' }))`.  One character is
+    emitted per byte, so the width is kept when every character the closure can return is a one-byte constant; the line break is kept when
+    the closure returns it on the edge on which the byte is 10 (0x0A never occurs inside a multi-byte character).  Returns False when
+    the body has no such pipeline."""
+    from vlib.mir import norm
+    ext = [c for c in b.calls() if (c.u or "").endswith("Extend::extend") and "alloc::string::String" in (c.ga or "") and "Map<core::str::iter::Bytes" in (c.ga or "")]
+    mp = [c for c in b.calls() if (c.u or "").endswith("Iterator::map") and "core::str::iter::Bytes" in (c.ga or "")]
+    if len(ext) != 1 or len(mp) != 1 or len(mp[0].args) < 2:
+        return False
+    cp_ = op_place(mp[0].args[1])
+    cd = b.single_def(cp_[0]) if cp_ is not None and not cp_[1] else None
+    if not (cd and cd[0] == "stmt" and cd[3][0] == "agg" and isinstance(cd[3][1], dict) and cd[3][1].get("k") == "closure"):
+        return False
+    cbs = ctx.prog.get(norm(cd[3][1]["def"]))
+    if not cbs:
+        return False
+    cb = cbs[0]
+    rets = []      # (block, char code)
+    for i, j, st in cb.all_stmts():
+        if st[0] == "=" and st[1] == [0, []]:
+            if st[2][0] == "use" and st[2][1][0] == "c" and st[2][1][1] == "char" and len(st[2][1]) > 3:
+                rets.append((i, int(st[2][1][3]["int"])))
+            else:
+                r.finding("remove_oscat_comment|byte map returns a computed character", where, "the character written for a byte is not a constant: the width of the replacement cannot be established")
+                return True
+    if not rets:
+        return False
+    wide = [cp for _, cp in rets if cp > 0x7F]
+    if wide:
+        r.finding("remove_oscat_comment|width", where, "one character is written per byte but U+%04X takes more than one byte: the text grows" % wide[0])
+    else:
+        r.ok("remove_oscat_comment|width", where, "one one-byte character per byte of the comment")
+    # the line break: on the edge on which the byte equals 10 the closure returns '\n', and nowhere else
+    nl_ok = False
+    nl_elsewhere = False
+    dom = cb.dominators()
+    for i, cp in rets:
+        on10 = False
+        for d_ in dom.get(i, set()):
+            si = switch_info(cb, d_)
+            if not si:
+                continue
+            for succ, labs in si["edges"].items():
+                if not (succ == i or succ in dom.get(i, set())):
+                    continue
+                if si["kind"] == "int" and [str(x) for x in labs] == ["10"]:
+                    on10 = True
+                if si["kind"] == "bool" and si["subject"][0] == "bin" and si["subject"][1] == "Eq" and labs == [True]:
+                    from rules import panics
+                    if 10 in (panics._int_const(cb, si["subject"][2]), panics._int_const(cb, si["subject"][3])):
+                        on10 = True
+        if cp == 10 and on10:
+            nl_ok = True
+        elif cp == 10 and not on10:
+            nl_elsewhere = True
+        elif cp != 10 and on10:
+            nl_ok = False
+            nl_elsewhere = True
+    if nl_ok and not nl_elsewhere:
+        r.ok("remove_oscat_comment|line break kept", where, "byte 10 is written as a line break, every other byte as another character")
+    else:
+        r.finding("remove_oscat_comment|line break", where, "the byte 10 is not written as a line break (or another byte is): lines of the pre-processed text do not correspond to lines of the source")
+    r.ok("remove_oscat_comment|every byte writes", where, "map over every byte of the comment, extended into the output")
+    return True
+
+
 def run(ctx, rep, rid="R-C05-blank"):
     r = rep.rule(rid, "the OSCAT pre-processor replaces text byte for byte: its per-character loop writes on every iteration and every write has the "
                       "UTF-8 width of the character it stands for; line breaks are kept", floor=3, floor_what="writes in the blanking loop + loop obligations")
@@ -161,6 +228,8 @@ def run(ctx, rep, rid="R-C05-blank"):
         if (c.u or "") == "core::iter::traits::iterator::Iterator::next" and "Chars" in (c.ga or ""):
             head = c
     if head is None and adaptor_form(ctx, b, r, where):
+        return
+    if head is None and bytes_form(ctx, b, r, where):
         return
     if head is None:
         r.finding("shape|no-char-loop", where, "the replacement is no longer produced by a loop over the characters of the comment: byte-for-byte "
